@@ -1,4 +1,5 @@
 import Resgate.Gw.Types
+import Resgate.Gw.QIdx
 import Resgate.Gw.Pure
 import Resgate.Model.Rid
 import Resgate.Model.Pattern
@@ -32,10 +33,13 @@ def tget {β} [Inhabited β] (t : List (Nat × β)) (k : Nat) : β := (t.lookup 
 def tset {β} (t : List (Nat × β)) (k : Nat) (v : β) : List (Nat × β) :=
   if t.any (·.1 == k) then t.map (fun p => if p.1 == k then (k, v) else p) else t ++ [(k, v)]
 
-def sget {β} (t : List (String × β)) (k : String) : Option β := t.lookup k
-def sset {β} (t : List (String × β)) (k : String) (v : β) : List (String × β) :=
-  if t.any (·.1 == k) then t.map (fun p => if p.1 == k then (k, v) else p) else t ++ [(k, v)]
-def sdel {β} (t : List (String × β)) (k : String) : List (String × β) := t.filter (·.1 != k)
+abbrev sget {β} (t : List (String × β)) (k : String) : Option β := qget t k
+abbrev sset {β} (t : List (String × β)) (k : String) (v : β) : List (String × β) := qset t k v
+abbrev sdel {β} (t : List (String × β)) (k : String) : List (String × β) := qdel t k
+
+/-- The alias index of an entry and its write-back. -/
+def Entry.idx (e : Entry) : QIdx := { base := e.base, queries := e.queries, links := e.links }
+def Entry.withIdx (e : Entry) (x : QIdx) : Entry := { e with base := x.base, queries := x.queries, links := x.links }
 
 def getEntry (id : Nat) : M Entry := return tget (← get).entries id
 def setEntry (id : Nat) (e : Entry) : M Unit := modify fun g => { g with entries := tset g.entries id e }
